@@ -100,11 +100,33 @@ let verdict case impl =
        let conns = parse_conns (get "conns") in
        let side_ok = fu = "ok" && tmax <= bound in
        (* 1. the cheap thing: does some admissible run of the model give exactly these outcomes? *)
-       let all = product (List.map candidates conns) in
-       let agree finals =
-         List.for_all2 (fun i r -> matches (expectation px finals (i + 1)) r)
-           (List.init (List.length res) (fun i -> i)) res in
-       if side_ok && List.exists agree all then "ok"
+       let nres = List.length res in
+       let res_arr = Array.of_list res in
+       (* markers (client requests) seen on each connection *)
+       let markers_of t = List.sort_uniq compare (List.filter_map (function
+         | TIn (_, r, _) -> let v = int_of_n r in if v mod 2 = 0 && v / 2 >= 1 && v / 2 <= nres then Some (v / 2) else None
+         | _ -> None) t) in
+       let per_conn = List.map markers_of conns in
+       let seen = Array.make (nres + 1) 0 in
+       List.iter (List.iter (fun m -> seen.(m) <- seen.(m) + 1)) per_conn;
+       let independent = Array.for_all (fun c -> c <= 1) seen in
+       let model_agrees =
+         if independent then
+           (* no request was attempted on two connections: every connection is judged on its own
+              (for a reset connection: some delivered prefix must explain all of its requests) *)
+           List.for_all2 (fun t ms ->
+             List.exists (fun st -> List.for_all (fun m -> matches (expectation px [st] m) res_arr.(m - 1)) ms)
+               (candidates t)) conns per_conn
+           && (let ok = ref true in
+               for m = 1 to nres do
+                 if seen.(m) = 0 && not (matches AnyErr res_arr.(m - 1)) then ok := false
+               done; !ok)
+         else
+           List.exists (fun finals ->
+             List.for_all2 (fun i r -> matches (expectation px finals (i + 1)) r)
+               (List.init nres (fun i -> i)) res)
+             (product (List.map candidates conns)) in
+       if side_ok && model_agrees then "ok"
        else begin
          (* 2. the property itself, on the implementation's output *)
          let viol = ref [] in
